@@ -481,16 +481,15 @@ def _conjuncts(g):
 
 def _solve_z3_one(facts, goal, timeout_ms):
     s = z3.Solver()
-    s.set("timeout", int(timeout_ms))
     s.add(*facts)
     s.add(z3.Not(goal))
     t0 = time.time()
-    r = s.check()
+    r = core.guarded_check(s, timeout_ms)
     dt = time.time() - t0
     return s, str(r), dt
 
 
-def _linear_abstraction(terms, som=True):
+def _linear_abstraction(terms, som=True, rich=True):
     """replace every product of two non-numeral factors by a fresh real (the same product
     term always by the same variable).  An over-approximation: if the abstracted query is
     unsat so is the original one.  Returns (new terms, number of products replaced)."""
@@ -558,7 +557,7 @@ def _linear_abstraction(terms, som=True):
         if key and key[0] == "div":
             # q = a / b with b != 0: q * b = a (the product q*b is one more monomial)
             a, b = rest
-            if all(e.sort() == z3.RealSort() for e in (a, b, v)):
+            if rich and all(e.sort() == z3.RealSort() for e in (a, b, v)):
                 m = z3.Const("quotmono!%d" % aux[0], z3.RealSort())
                 aux[0] += 1
                 extra.append(z3.Implies(b != 0, m == a))
@@ -568,7 +567,7 @@ def _linear_abstraction(terms, som=True):
             continue
         if len(rest) == 2:
             sign_rules(rest[0], rest[1], v)
-        elif 3 <= len(rest) <= 5:
+        elif rich and 3 <= len(rest) <= 5:
             # n-ary monomial: prefix products f1*f2, (f1*f2)*f3, ... each with the binary sign
             # rules; the real prefix products satisfy them, so the abstraction stays sound
             prev = rest[0]
@@ -651,10 +650,9 @@ def _collect_equalities(facts, timeout_ms=1500):
         visit(f)
     for ante, cons in pending:
         s = z3.Solver()
-        s.set("timeout", timeout_ms)
         s.add(*facts)
         s.add(z3.Not(ante))
-        if s.check() == z3.unsat:
+        if core.guarded_check(s, timeout_ms) == z3.unsat:
             visit(cons, 2)
     return eqs
 
@@ -716,10 +714,9 @@ def _solve_algebraic(facts, goal, timeout_s=40):
         # every denominator must be non-zero under the facts
         for d in dens:
             s = z3.Solver()
-            s.set("timeout", 3000)
             s.add(*facts)
             s.add(d == 0)
-            if s.check() != z3.unsat:
+            if core.guarded_check(s, 3000) != z3.unsat:
                 return None
         return True
     except (_NoAlg, RecursionError, MemoryError):
@@ -737,6 +734,27 @@ def _abstraction_for_feasibility(terms, som=False):
 
 
 core.LINEAR_ABSTRACTION = _abstraction_for_feasibility
+
+
+def _deep_feasibility(terms, timeout_ms):
+    """second opinion for branch feasibility: cvc5 on the dumped query, then z3's nlsat"""
+    s = z3.Solver()
+    s.add(*terms)
+    smt = s.to_smt2()
+    r, _dt = _solve_cvc5(smt, timeout_ms)
+    if r in ("sat", "unsat"):
+        return r
+    try:
+        t = z3.TryFor(z3.Then("simplify", "purify-arith", "propagate-values", "solve-eqs", "qfnra-nlsat"), int(timeout_ms))
+        s2 = t.solver()
+        s2.add(*terms)
+        r2 = str(s2.check())
+        return r2 if r2 in ("sat", "unsat") else "unknown"
+    except z3.Z3Exception:
+        return "unknown"
+
+
+core.DEEP_CHECK = _deep_feasibility
 
 
 def _solve_portfolio(facts, g, timeout_ms):
@@ -807,7 +825,7 @@ def _solve_z3_alt(facts, goal, timeout_ms):
         s.add(*facts)
         s.add(z3.Not(goal))
         t0 = time.time()
-        r = s.check()
+        r = core.guarded_check(s, timeout_ms)
         return s, str(r), time.time() - t0
     except z3.Z3Exception:
         return None, "unknown", 0.0
@@ -974,25 +992,11 @@ def _bounds_for(inputs, k):
     return cs
 
 
-_TIME_SCALE = None
-
-
 def time_scale():
-    """>= 1: how much longer wall-clock budgets are stretched; VERIF_TIME_SCALE overrides"""
-    global _TIME_SCALE
-    if _TIME_SCALE is None:
-        env = os.environ.get("VERIF_TIME_SCALE")
-        if env:
-            _TIME_SCALE = max(1.0, float(env))
-        else:
-            try:
-                load = os.getloadavg()[0]
-                ncpu = os.cpu_count() or 1
-            except OSError:
-                load, ncpu = 0.0, 1
-            # our own 16 worker processes count as load 1.0 x ncpu; anything beyond is foreign
-            _TIME_SCALE = min(6.0, max(1.0, 1.0 + (load - 0.5 * ncpu) / ncpu * 1.5))
-    return _TIME_SCALE
+    """>= 1: how much wall-clock solver timeouts are stretched. Read from the CURRENT load
+    average on every call (a run that starts together with many others sees the load only after
+    a while); VERIF_TIME_SCALE overrides."""
+    return core._time_scale()
 
 
 def run_contract(contract, tier="quick", findings=None, want_sample=False):
@@ -1003,7 +1007,10 @@ def run_contract(contract, tier="quick", findings=None, want_sample=False):
     # "undecided" under load. The scale is fixed once per run from the load average.
     scale = time_scale()
     tmo = int((contract.timeout or (20000 if tier == "quick" else 120000)) * scale)
-    budget_s = (contract.budget or (240 if tier == "quick" else 1800)) * scale
+    # the budget is CPU time of this job's process (one process per job): contention from other
+    # processes does not eat it. Wall clock is only a distant fall-back (the cli deadline).
+    budget_s = contract.budget or (240 if tier == "quick" else 1800)
+    cpu_start = time.process_time()
     res = {
         "id": contract.id,
         "prop": contract.prop,
@@ -1045,9 +1052,8 @@ def run_contract(contract, tier="quick", findings=None, want_sample=False):
         trusted |= c.trusted
         # cover / vacuity: the path's facts must be satisfiable
         s = z3.Solver()
-        s.set("timeout", 5000)
         s.add(*c.facts())
-        cover = str(s.check())
+        cover = str(core.guarded_check(s, 5000))
         if cover == "unsat":
             continue
         feasible_paths += 1
@@ -1063,8 +1069,8 @@ def run_contract(contract, tier="quick", findings=None, want_sample=False):
                 res.setdefault("exceptions", []).append("%s: %s @ %s" % (type(p.exc).__name__, str(p.exc)[:200], loc))
         for name, goal, npc, *rest_ in obls:
             focus = rest_[0] if rest_ else None
-            if time.time() - t_start > budget_s:
-                res["undecided"].append({"obligation": contract.id + "/" + name, "reason": "contract budget of %ds exhausted" % budget_s})
+            if time.process_time() - cpu_start > budget_s:
+                res["undecided"].append({"obligation": contract.id + "/" + name, "reason": "contract budget of %ds CPU exhausted" % budget_s})
                 a = agg.setdefault(name, {"clause": name, "paths": 0, "discharged": 0, "backend": set(), "solver_s": 0.0, "status": "discharged"})
                 a["paths"] += 1
                 a["status"] = "undecided"
@@ -1123,11 +1129,10 @@ def run_contract(contract, tier="quick", findings=None, want_sample=False):
                 # ask for another model, bounded magnitudes
                 k += 1
                 s3 = z3.Solver()
-                s3.set("timeout", int(tmo))
                 s3.add(*facts)
                 s3.add(z3.Not(goal))
                 s3.add(*_bounds_for(c.inputs, k))
-                if str(s3.check()) != "sat":
+                if str(core.guarded_check(s3, tmo)) != "sat":
                     break
                 model = s3.model()
             if replayed is None:
@@ -1248,8 +1253,7 @@ def canary(contract, findings=None):
         return None
     for p in paths:
         s = z3.Solver()
-        s.set("timeout", 5000)
         s.add(*p.ctx.facts())
-        if str(s.check()) == "sat":
+        if str(core.guarded_check(s, 5000)) == "sat":
             return True
     return False
